@@ -657,6 +657,7 @@ def check_outer(ctx, exe, d, n_core, n_wide):
     mo = ctx.run_model(exe, ["hist " + ";".join(coq_op(o) for o in h) for h in core])
     res = run_histories(ctx, d, core + wide)
     reported = 0
+    nbroken = [0]
     for n, h in enumerate(core + wide):
         if res[n] is None:
             continue            # not run: the interpreter already hung/crashed 3 times (each reported)
@@ -679,7 +680,9 @@ def check_outer(ctx, exe, d, n_core, n_wide):
                 m = mf[k] if k < len(mf) else "?"
                 m4 = " ".join(m.split(" ")[:4]) if m != "E" else "E"
                 if m4 != e:
-                    ctx.broken("correspondence:extracted-spec-vs-array", "step %d of %s: extracted model/spec say %r, array semantics say %r" % (k, h[:k + 1], m, e))
+                    nbroken[0] += 1
+                    if nbroken[0] <= 5:
+                        ctx.broken("correspondence:extracted-spec-vs-array", "step %d of %s: extracted model/spec say %r, array semantics say %r" % (k, h[:k + 1], m, e))
                     break
         k = first_diff(exp, got)
         if k is not None:
